@@ -311,7 +311,24 @@ func (cs *connServer) run(chunks [][]byte) *connResult {
 		res.Consumed = conn.consumed
 		return res
 	}
-	waitTimeout(&cs.hjWG, 10*time.Second) // only a hijack handler that never returns waits this long
+	// wait for hijack handlers: up to 10 s for one that runs; when the server has closed the connection without
+	// starting the handler (a hijack asked for on a connection that is to be closed is skipped) there is nothing to wait for
+	hjDone := make(chan struct{})
+	go func() { cs.hjWG.Wait(); close(hjDone) }()
+	for t0 := time.Now(); time.Since(t0) < 10*time.Second; {
+		select {
+		case <-hjDone:
+		case <-time.After(20 * time.Millisecond):
+			tr.mu.Lock()
+			closed := tr.Closed
+			tr.mu.Unlock()
+			if closed && !res.HijackRan && time.Since(t0) > 200*time.Millisecond {
+				break
+			}
+			continue
+		}
+		break
+	}
 	if res.HijackConn != nil && cs.cfg.KeepHijacked {
 		// the application keeps using the hijacked connection after the hijack handler returned
 		time.Sleep(5 * time.Millisecond)
